@@ -24,19 +24,19 @@ theorem generate_spec {cfg : GenCfg} {o : GenOracles} {K : String → Prop} {sam
   obtain ⟨sets, hsets, h⟩ := h
   rw [Except.bind_eq_ok] at h
   obtain ⟨fields, hfields, h⟩ := h
-  obtain ⟨hm1, hm2⟩ := mapM_ok_mem samples sets hsets
+  obtain ⟨hm1, hm2⟩ := mapM_ok_memX samples sets hsets
   have he : EqSoundOn true o.accepts (fun _ => none) (genEnv o) (Ty.Good K) := pyEq_sound (genEnv o) rfl
   have hmem : ∀ fs ∈ sets, Mem K (.obj fs) := by
     intro fs hfs
     obtain ⟨s, hs', hc⟩ := hm2 fs hfs
     obtain ⟨kvs, _, _, hg, hms⟩ := convert_spec cfg o (fun _ => none) K hK hs (wf s hs') hc
-    exact ⟨hg, hms⟩
-  obtain ⟨hin, hcov⟩ := stage_merge hs he cfg.lit hmem hfields
+    exact hg
+  obtain ⟨hin, hcov⟩ := stage_merge (ov := true) (acc := o.accepts) (g := fun _ => none) hs he cfg.lit hmem hfields
   obtain ⟨hout, _, hopt⟩ := (optimize_spec_all hs he hrep hrank _).1 _ t hin h
   refine ⟨hout.1, hout.2, ?_⟩
   intro s hs'
   obtain ⟨fs, hfs, hc⟩ := hm1 s hs'
   obtain ⟨kvs, rfl, hi, _, _⟩ := convert_spec cfg o (fun _ => none) K hK hs (wf s hs') hc
-  exact hopt _ (hcov fs hfs _ (inh_obj_iff.2 hi))
+  exact hopt _ (hcov fs hfs _ (InhX.toLT (inh_obj_iff.2 hi)))
 
 end J2M
